@@ -105,7 +105,7 @@ Definition regex_partial_eq (r s : string) : outcome bool :=
   match re r s with
   | ReMatch b => Done b
   | ReCompileErr => Done false
-  | ReMatchErr => Panic P_regex_unwrap
+  | ReMatchErr => Done false        (* fix in /repo: unwrap_or(false) *)
   | ReUnknownPair => Unknown
   end.
 
